@@ -762,9 +762,12 @@ Qed.
 
 (** * ForceBackup (C17/C07), optional part.
 
-    [b_force_backup name] is: resolve, [try_remove_backup] of the resolved
-    path, [try_backup] of the resolved path.  It never calls a mutating method
-    of the base.  [try_remove_backup p] does not mention the base at all (it is
+    [b_force_backup name] is: resolve, look the resolved path up in the
+    bookkeeping, [try_remove_backup] of the resolved path, [try_backup] of the
+    resolved path; if that fails and the path had been recorded as "did not
+    exist", the record is put back ([set_info_if_new], bookkeeping only).  It
+    never calls a mutating method of the base.  [try_remove_backup p] does not
+    mention the base at all (it is
     a function of [backup] only), does nothing when [p] is not tracked, uses
     only Lstat, Open, Remove and RemoveAll of the backup, and every path it
     calls the backup with is [p] or obtained from [p] by joining directory
@@ -772,7 +775,14 @@ Qed.
 
 Theorem b_force_backup_unfold : forall base backup name w,
   b_force_backup base backup name w
-  = (rn <- real_path base name ;; try_remove_backup backup rn ;;; try_backup base backup rn) w.
+  = (rn <- real_path base name ;;
+     prev <- already_seen rn ;;
+     try_remove_backup backup rn ;;;
+     r <- try_ (try_backup base backup rn) ;;
+     match r with
+     | Ok _ => ret tt
+     | Err e => (match prev with Some None => set_info_if_new rn None | _ => ret tt end) ;;; fail e
+     end) w.
 Proof. reflexivity. Qed.
 
 Theorem b_force_backup_ro : forall base backup name w,
